@@ -17,7 +17,7 @@ from ..core import J, Sub, raised, rng_of, sut
 PROPERTY = "C14"
 RULE = (
     "histories over {decimate(q, ftype/n/zero_phase), detrend(type, bp), filter(Wn, order, btype), rollback, add_algorithms} on SingleSetup and "
-    "MultiSetup_PreGER (1..3 datasets of 2..5 channels, any reference layout): all sequences up to length 3 (quick) / 4 (thorough) over a 9-symbol "
+    "MultiSetup_PreGER (1..3 datasets of 2..5 channels, any reference layout): all sequences up to length 3 (quick) / 4 (thorough) over a 10-symbol "
     "alphabet enumerated, longer ones generated; model = scipy.signal.decimate/detrend/butter+sosfiltfilt applied in sequence; after every step "
     "data, fs, dt, sample counts, durations and the array bound to a freshly added algorithm are compared; "
     "non-trivial = >= 2 data-changing operations or a rollback after a change"
@@ -38,6 +38,7 @@ ALPHABET = [
     {"op": "detrend", "kw": {"type": "constant", "bp": 100, "axis": 0}},
     {"op": "filter", "wn": [0.4], "order": 8, "btype": "lowpass", "default_order": True},
     {"op": "filter", "wn": [0.2, 0.6], "order": 4, "btype": "bandpass"},
+    {"op": "filter", "hz": [4.0], "order": 4, "btype": "lowpass"},  # identical specification in Hz before and after a change of rate
     {"op": "rollback"},
     {"op": "add"},
 ]
@@ -67,7 +68,7 @@ def _model_step(cur, fs, op):
     if op["op"] == "detrend":
         return [signal.detrend(d, axis=0, **{k_: v_ for k_, v_ in op.get("kw", {}).items() if k_ != "axis"}) for d in cur], fs
     if op["op"] == "filter":
-        wn = [w * fs / 2 for w in op["wn"]]
+        wn = list(op["hz"]) if "hz" in op else [w * fs / 2 for w in op["wn"]]  # "hz": the same cut-off in Hz whatever the current rate
         wn = wn[0] if len(wn) == 1 else wn
         sos = signal.butter(op["order"], wn, btype=op["btype"], output="sos", fs=fs)
         return [signal.sosfiltfilt(sos, d, axis=0) for d in cur], fs
@@ -80,7 +81,7 @@ def _apply_sut(setup, op, fs_model):
     if op["op"] == "detrend":
         return sut(setup.detrend_data, **op.get("kw", {}))
     if op["op"] == "filter":
-        wn = [w * fs_model / 2 for w in op["wn"]]
+        wn = list(op["hz"]) if "hz" in op else [w * fs_model / 2 for w in op["wn"]]
         wn = wn[0] if len(wn) == 1 else tuple(wn)
         if op.get("default_order"):
             return sut(setup.filter_data, Wn=wn, btype=op["btype"])
@@ -256,6 +257,9 @@ def op_strategy(draw):
         return {"op": "detrend", "kw": kw}
     if name == "filter":
         bt = draw(st.sampled_from(["lowpass", "highpass", "bandpass", "bandstop"]))
+        if draw(st.integers(0, 2)) == 0:  # a few fixed specifications in Hz, so that the same one recurs at different rates
+            hz = draw(st.sampled_from([[2.0], [4.0], [7.5]])) if bt in ("lowpass", "highpass") else draw(st.sampled_from([[1.0, 4.0], [2.0, 7.5]]))
+            return {"op": "filter", "hz": hz, "order": draw(st.sampled_from([2, 4])), "btype": bt}
         if bt in ("lowpass", "highpass"):
             wn = [draw(st.floats(0.05, 0.9))]
         else:
@@ -286,12 +290,12 @@ def history_case(draw, kind, max_steps):
 
 SUBS = [
     Sub("enumerate_single", judge_history, enum=_enum("single"), shards_quick=16, shards_thorough=16,
-        rule="SingleSetup: every operation sequence up to length 3 (quick) / 4 (thorough) over the 9-symbol alphabet against the scipy model"),
+        rule="SingleSetup: every operation sequence up to length 3 (quick) / 4 (thorough) over the 10-symbol alphabet against the scipy model"),
     Sub("enumerate_preger", judge_history, enum=_enum("preger"), shards_quick=16, shards_thorough=16,
         rule="MultiSetup_PreGER (two datasets, references [2,0] and [1,3]): every sequence up to length 3 / 4 against the scipy model + own split"),
-    Sub("machine_single", judge_history, history_case("single", 6), quick=500, thorough=6000,
+    Sub("machine_single", judge_history, history_case("single", 6), quick=500, thorough=30000,
         rule="SingleSetup: generated histories of up to 6 operations with drawn parameters (q 2..5, ftype/n/zero_phase, detrend type/bp, Wn, order 1..8, all btypes)"),
-    Sub("machine_preger", judge_history, history_case("preger", 6), quick=500, thorough=6000,
+    Sub("machine_preger", judge_history, history_case("preger", 6), quick=500, thorough=30000,
         rule="MultiSetup_PreGER with 1..3 datasets of 2..5 channels and drawn reference layouts: generated histories of up to 6 operations"),
 ]
 
